@@ -55,7 +55,10 @@ def generate(tape, tier="quick"):
         mk = tape.weighted([("partial", 6), ("none", 1), ("nomask", 1), ("empty", 1), ("full", 1)])
         return {"engine": "R", "shape": shape, "order": tape.choice(["C", "F"]), "mask_kind": mk,
                 "mask": gen_mask(tape, shape, mk) if mk in ("partial", "empty", "full") else None,
-                "quantified": tape.chance(1, 2), "masked_input": tape.chance(1, 2)}
+                "quantified": tape.chance(1, 2), "masked_input": tape.chance(1, 2),
+                # the metadata object was already used (data prepared under it) with an open mask before the mask was
+                # fixed through its setter - and is opened again afterwards
+                "info_reuse": tape.chance(1, 3)}
     a = gen_structured(tape, max_dim=2, max_len=4, kinds=("uniform", "rectilinear", "esri"))
     if tape.chance(1, 100):
         # large grids now and then (masks of more than a thousand cells that differ in one cell somewhere)
@@ -124,6 +127,13 @@ def run_roundtrip(sc):
     # prepare under a fixed mask
     if mk in ("partial", "empty", "full") and len(shape) >= 1:
         info = Info(time=None, grid=NoGrid(dim=len(shape), data_shape=shape), mask=mask, units="m")
+        if sc.get("info_reuse"):
+            info = Info(time=None, grid=NoGrid(dim=len(shape), data_shape=shape), mask=Mask.FLEX, units="m")
+            try:
+                tools.prepare(data.copy(), info)
+            except Exception:      # noqa: BLE001
+                pass
+            info.mask = mask
         payloads = [(data.copy(), 1.0), (np.ma.array(data.copy(), mask=mask, shrink=False), 1.0),
                     # quantified, unmasked, in foreign units: converted AND masked
                     (tools.UNITS.Quantity(data.copy(), "km"), 1000.0), (tools.UNITS.Quantity(data.copy(), "m"), 1.0),
@@ -152,6 +162,14 @@ def run_roundtrip(sc):
             elif not np.allclose(np.ma.getdata(pm)[0][~mask], data[~mask] * fac, rtol=1e-12) or p.units != tools.UNITS.Unit("m"):
                 v("mask-prepare", "values", f"{sc}: prepare() under a fixed mask delivered wrong values/units "
                   f"(payload {'quantity x' + str(fac) if fac != 1.0 or hasattr(payload, 'units') else 'plain'})")
+        if sc.get("info_reuse") and not viol:
+            info.mask = Mask.NONE
+            try:
+                p = tools.prepare(data.copy(), info)
+                if np.ma.isMaskedArray(p.magnitude) and np.ma.getmaskarray(p.magnitude).any():
+                    v("mask-prepare", "reopened", f"{sc}: metadata set back to 'no mask' still masks the prepared data")
+            except Exception as e:      # noqa: BLE001
+                v("mask-prepare", type(e).__name__, f"{sc}: prepare under metadata set back to 'no mask' raised {type(e).__name__}: {e}")
     return viol
 
 
